@@ -2,6 +2,7 @@ import TsVerif.C06.Model
 import TsVerif.C06.Cursor
 import TsVerif.C06.NodePort
 import TsVerif.C06.Sexp
+import TsVerif.C06.NodeNav
 import TsVerif.C02.Judge
 import Std.Data.HashMap
 /-!
@@ -34,6 +35,8 @@ structure Ctx where
   byId : Std.HashMap Nat Nat
   /-- subtrees of the visible tree by preorder index (for rendering) -/
   sub : Array VTree
+  /-- number of raw nodes of the tree (fuel bound for the ports' descent loops) -/
+  rootSize : Nat := 0
 
 def Ctx.idOf (c : Ctx) (k : Nat) : String := toHex (c.ft.node k).info.id
 def Ctx.optId (c : Ctx) : Option Nat → String
@@ -65,7 +68,7 @@ def mkCtx (lang : Lang) (root : Tree) (rootId : Nat) : Ctx :=
     for h : k in [0:ft.size] do
       m := m.insert (ft[k]'h.2.1).info.id k
     return m
-  { lang := lang, ft := ft, vt := vt, byId := byId, sub := collectSubs vt #[] }
+  { lang := lang, ft := ft, vt := vt, byId := byId, sub := collectSubs vt #[], rootSize := root.size }
 
 def pt (r c : String) : TSPoint := { row := natOf r, column := natOf c }
 
@@ -266,6 +269,41 @@ def judgeLine (c : Ctx) (root : Tree) (rootId : Nat) (r : Res) (line : String) :
           if port == answer then r
           else { r with corrFails := r.corrFails.add ("corr:" ++ op) fun _ => s!"{where_ ()}: api={answer} port={port}" }
         else r
+      let refOf := fun (j : Nat) =>
+        let i := (c.ft.node j).info
+        ({ t := i.raw, alias := i.alias, id := i.id, start := i.start } : NodeRef)
+      let optRef := fun (o : Option NodeRef) => match o with | some n => toHex n.id | none => "-"
+      let navPort : Option String :=
+        match op, args with
+        | "par", _ => some (optRef (nodeParent c.lang (c.rootSize + 1) (refOf 0) (refOf k)))
+        | "cwd", _ => some (optRef (childWithDescendant c.lang (c.rootSize + 1) (refOf 0) (refOf k).id (refOf k).startByte (refOf k).endByte))
+        | "cwd2", dd :: _ =>
+          let dn := refOf (natOf dd)
+          some (optRef (childWithDescendant c.lang (c.rootSize + 1) (refOf k) dn.id dn.startByte dn.endByte))
+        | "ns", _ => some (optRef (nextSiblingPort c.lang (c.rootSize + 1) (refOf 0) (refOf k) true))
+        | "nns", _ => some (optRef (nextSiblingPort c.lang (c.rootSize + 1) (refOf 0) (refOf k) false))
+        | "ps", _ => some (optRef (prevSiblingPort c.lang (c.rootSize + 1) (refOf 0) (refOf k) true))
+        | "pns", _ => some (optRef (prevSiblingPort c.lang (c.rootSize + 1) (refOf 0) (refOf k) false))
+        | "fcb", g :: _ => some (optRef (firstChildForBytePort c.lang (c.rootSize + 1) (refOf k) (natOf g) true))
+        | "fncb", g :: _ => some (optRef (firstChildForBytePort c.lang (c.rootSize + 1) (refOf k) (natOf g) false))
+        | "dbr", w :: s0 :: e0 :: _ => some (optRef (descendantForByteRangePort c.lang (c.rootSize + 1) (refOf (if w == "r" then 0 else k)) (natOf s0) (natOf e0) true))
+        | "ndbr", w :: s0 :: e0 :: _ => some (optRef (descendantForByteRangePort c.lang (c.rootSize + 1) (refOf (if w == "r" then 0 else k)) (natOf s0) (natOf e0) false))
+        | "dpr", w :: sr :: sc :: er :: ec :: _ =>
+          some (optRef (descendantForPointRangePort c.lang (c.rootSize + 1) (refOf (if w == "r" then 0 else k)) (pt sr sc) (pt er ec) true))
+        | "ndpr", w :: sr :: sc :: er :: ec :: _ =>
+          some (optRef (descendantForPointRangePort c.lang (c.rootSize + 1) (refOf (if w == "r" then 0 else k)) (pt sr sc) (pt er ec) false))
+        | "fn", i :: _ => some (match fieldNameForChildPort c.lang (c.rootSize + 1) (refOf k) (natOf i) true with
+            | some f => hexOfString (c.lang.fieldNames.getD f "") | none => "-")
+        | "fnn", i :: _ => some (match fieldNameForChildPort c.lang (c.rootSize + 1) (refOf k) (natOf i) false with
+            | some f => hexOfString (c.lang.fieldNames.getD f "") | none => "-")
+        | "cbf", f :: _ => some (optRef (childByFieldIdPort c.lang (c.rootSize + 1) (refOf k) (natOf f)))
+        | _, _ => none
+      let r := match navPort with
+        | some port =>
+          let r := { r with portCompared := r.portCompared + 1 }
+          if port == answer then r
+          else { r with corrFails := r.corrFails.add ("corr:" ++ op) fun _ => s!"{where_ ()}: api={answer} port={port}" }
+        | none => r
       let r := if op == "sx" then
           let info := (c.ft.node k).info
           let port := hexOfString (nodeString c.lang info.raw info.alias)
